@@ -44,7 +44,7 @@ let check _ln line =
         match String.split_on_char ':' tok with
         | ["new"; h] -> st := step !st (ONew (zbytes_of_hex h))
         | ["write"; cv; i; v] -> st := step !st (OWrite (ni cv, ni i, z_of_string v))
-        | ["construct"; cvs] ->
+        | ["construct"; cvs] | ["constructm"; cvs] ->
           let l = if cvs = "" then [] else List.map ni (String.split_on_char ',' cvs) in
           st := step !st (OConstruct l); note_new_objects ()
         | ["decode"; cv; k; skip; hl] -> st := step !st (ODecode (ni cv, kind_of k, ni skip, ni hl)); note_new_objects ()
